@@ -424,8 +424,8 @@ impl Oracle {
 
     fn ref_ctx(&self) -> h264_reader::Context {
         let mut c = h264_reader::Context::new();
-        for s in self.sps_objs.values() { c.put_seq_param_set(s.clone()); }
-        for p in self.pps_objs.values() { c.put_pic_param_set(p.clone()); }
+        for s in self.sps_objs.values() { { let _ = c.put_seq_param_set(s.clone()); }; }
+        for p in self.pps_objs.values() { { let _ = c.put_pic_param_set(p.clone()); }; }
         c
     }
     fn c19(&mut self, ops: &[&str], line: &str) -> String {
@@ -498,9 +498,9 @@ impl Oracle {
                 if n.is_empty() || n[0] & 0x80 != 0 || n[0] & 31 != [7u8, 8][which] { err = Some("ParamSet"); break 'ctx; }
                 let (rbsp, valid) = unescape(&n[1..]);
                 if which == 0 {
-                    match h264_reader::nal::sps::SeqParameterSet::from_bits(h264_reader::rbsp::BitReader::new(&rbsp[..])) { Ok(s) if valid => { smap.insert(s.seq_parameter_set_id.id(), format!("{:?}", s)); ctx.put_seq_param_set(s) } _ => { err = Some("Sps"); break 'ctx; } }
+                    match h264_reader::nal::sps::SeqParameterSet::from_bits(h264_reader::rbsp::BitReader::new(&rbsp[..])) { Ok(s) if valid => { smap.insert(s.seq_parameter_set_id.id(), format!("{:?}", s)); { let _ = ctx.put_seq_param_set(s); } } _ => { err = Some("Sps"); break 'ctx; } }
                 } else {
-                    match h264_reader::nal::pps::PicParameterSet::from_bits(&ctx, h264_reader::rbsp::BitReader::new(&rbsp[..])) { Ok(p) if valid => { pmap.insert(p.pic_parameter_set_id.id(), format!("{:?}", p)); ctx.put_pic_param_set(p) } _ => { err = Some("Pps"); break 'ctx; } }
+                    match h264_reader::nal::pps::PicParameterSet::from_bits(&ctx, h264_reader::rbsp::BitReader::new(&rbsp[..])) { Ok(p) if valid => { pmap.insert(p.pic_parameter_set_id.id(), format!("{:?}", p)); { let _ = ctx.put_pic_param_set(p); } } _ => { err = Some("Pps"); break 'ctx; } }
                 }
             }
         }
@@ -774,11 +774,12 @@ impl Oracle {
         let (rbsp, valid) = unescape(&all[1..]);
         let fin = if !valid { "InvalidData" } else if complete { "Eof" } else { "WouldBlock" };
         let mut want: Vec<String> = vec![]; let mut pos = 0usize; let mut seen = 0;
-        let rd = |pos: &mut usize| -> Result<u64, ()> { let mut acc = 0u64; loop { if *pos >= rbsp.len() { return Err(()); } let b = rbsp[*pos]; *pos += 1; acc += b as u64; if b != 0xff { return Ok(acc); } } };
+        // (a value that does not fit 32 bits is an error as soon as the running sum leaves the range - Err(true))
+        let rd = |pos: &mut usize| -> Result<u64, bool> { let mut acc = 0u64; loop { if *pos >= rbsp.len() { return Err(false); } let b = rbsp[*pos]; *pos += 1; acc += b as u64; if acc >= 1u64 << 32 { return Err(true); } if b != 0xff { return Ok(acc); } } };
         loop {
-            let ty = match rd(&mut pos) { Ok(v) => v, Err(_) => { want.push(format!("err:Io(payload_type,{})", fin)); break; } };
+            let ty = match rd(&mut pos) { Ok(v) => v, Err(over) => { want.push(format!("err:Io(payload_type,{})", if over { "InvalidData" } else { fin })); break; } };
             if ty == 0x80 && seen > 0 && pos == rbsp.len() { if fin == "Eof" { want.push("end".into()); } else { want.push(format!("err:Io(payload_type,{})", fin)); } break; }
-            let len = match rd(&mut pos) { Ok(v) => v as usize, Err(_) => { want.push(format!("err:Io(payload_len,{})", fin)); break; } };
+            let len = match rd(&mut pos) { Ok(v) => v as usize, Err(over) => { want.push(format!("err:Io(payload_len,{})", if over { "InvalidData" } else { fin })); break; } };
             if rbsp.len() - pos < len { want.push(format!("err:Io(payload,{})", fin)); break; }
             want.push(format!("msg:{}:{}", ty, hex(&rbsp[pos..pos + len]))); pos += len; seen += 1;
         }
